@@ -117,8 +117,8 @@ func init() {
 			use("emitted_RuneValue", ob.Bytes())
 		}
 		c20EndToEnd(t, r, root, tier)
-		r.Set("evaluations", total)
-		r.Set("rule", "complete enumeration: every Unicode scalar value spelled raw (where Go allows), \\U, \\u, \\x, octal (both hex cases) and the nine named escapes, each compared with strconv.UnquoteChar, for the generator's LitToRune (in-process) and the emitted util.RuneValue (compiled from a real gocc run); all strings of <=4 characters over [0-9+-] plus int64/uint64 boundary neighbourhoods against strconv; distinct = (subject, spelling kind) classes, up to 3 per class")
+		r.Add("evaluations", int64(total))
+		r.Set("rule", "complete enumeration: every Unicode scalar value spelled raw (where Go allows), \\U, \\u, \\x, octal (both hex cases) and the nine named escapes, each compared with strconv.UnquoteChar, for the generator's LitToRune (in-process) and the emitted util.RuneValue (compiled from a real gocc run); all strings of <=4 characters over [0-9+-] plus int64/uint64 boundary neighbourhoods against strconv ; end-to-end: one grammar per representative literal (every escape kind x UTF-8 length boundaries) through the real generator, the emitted start-state test must be r == the code point Go assigns; distinct = (subject, spelling kind) classes, up to 3 per class, plus end-to-end literals")
 		r.Assumption("emitted util/litconv.go does not depend on the grammar (asserted by C09/C12 corpora hashing it)")
 		return r.Finish(nil)
 	}
